@@ -488,7 +488,18 @@ class LayoutExtractor:
                     env[t.id] = ('val', t.id)
                     continue
                 # x = list(gen()) / list(cls.sub_items(stream))
-                lp = self._loop(v, c, gens, env, stream_names, f)
+                consumed = Affine.c(0)
+                for el in elems:
+                    if el[0] == 'f':
+                        consumed = consumed + Affine.c(el[2])
+                    elif el[1] == 'read':
+                        consumed = consumed + el[2]
+                    else:
+                        consumed = None
+                        break
+                own_stream = any(isinstance(x, ast.Assign) and isinstance(x.value, ast.Call) and
+                                 norm(x.value.func) in ('cStringIO', 'BytesIO', 'six.BytesIO', 'io.BytesIO') for x in body)
+                lp = self._loop(v, c, gens, env, stream_names, f, consumed if own_stream else None)
                 if lp is not None and isinstance(t, ast.Name):
                     elems.append(('v', 'loop', lp, t.id))
                     env[t.id] = ('val', t.id)
@@ -629,7 +640,7 @@ class LayoutExtractor:
         return None
 
     # ------------------------------------------------------------- loops
-    def _loop(self, v, c, gens, env, stream_names, f) -> Optional[LoopDesc]:
+    def _loop(self, v, c, gens, env, stream_names, f, consumed=None) -> Optional[LoopDesc]:
         if not (isinstance(v, ast.Call) and isinstance(v.func, ast.Name) and v.func.id == 'list' and len(v.args) == 1):
             return None
         inner = v.args[0]
@@ -661,12 +672,12 @@ class LayoutExtractor:
                 bound = self._aff_dec(rd, env, c)
             else:
                 raise AnalysisError('%s: generator argument %s not recognised' % (f.loc(v), norm(a)))
-        desc = self._loop_desc(gnode, gcls, env, f)
+        desc = self._loop_desc(gnode, gcls, env, f, consumed)
         if bound is not None:
             desc.bound = bound
         return desc
 
-    def _loop_desc(self, gnode: ast.FunctionDef, c: ClassInfo, env, f) -> LoopDesc:
+    def _loop_desc(self, gnode: ast.FunctionDef, c: ClassInfo, env, f, consumed=None) -> LoopDesc:
         body = body_without_docstring(gnode)
         loop = None
         pre: Dict[str, ast.expr] = {}
@@ -684,6 +695,24 @@ class LayoutExtractor:
 
         def is_next_type(e):
             return isinstance(e, ast.Call) and norm(e.func) == '_next_type'
+        # position loop: ``while stream.tell() < limit`` on the decoder's own stream
+        if isinstance(test, ast.Compare) and len(test.ops) == 1 and isinstance(test.left, ast.Call) \
+                and norm(test.left.func).endswith('.tell') and isinstance(test.ops[0], (ast.Lt, ast.NotEq)):
+            if consumed is None:
+                raise AnalysisError('%s: position-bounded loop on a stream whose start is not known' % f.loc(loop))
+            d = LoopDesc('counted', node=loop)
+            # the position counts from the start of the buffer, i.e. it includes what was consumed before the loop
+            d.bound = self._aff_dec(test.comparators[0], env, c) - consumed
+            child = None
+            for st in ast.walk(loop):
+                if isinstance(st, ast.Call):
+                    ch = self._child_decode(st, c, {'stream'})
+                    if ch:
+                        child = ch
+            if child is None:
+                raise AnalysisError('%s: position loop decodes no child' % f.loc(loop))
+            d.accepts = {'*': child}
+            return d
         # counted loop
         if isinstance(test, ast.Compare) and len(test.ops) == 1 and isinstance(test.left, ast.Name) and test.left.id in pre \
                 and isinstance(pre[test.left.id], ast.Constant) and pre[test.left.id].value == 0:
